@@ -34,6 +34,11 @@ namespace AIToolbox::Factored {
              * Differently from Trie, we don't store the keys in an ordered
              * way, so this operation takes constant time (bar reallocations).
              *
+             * Differently from Trie, the key must contain at least one
+             * factor (entries are stored by their first key-value pair);
+             * an empty key is rejected with an std::invalid_argument
+             * exception.
+             *
              * @param pf The PartialFactors used as key for the insertion.
              *
              * @return The id of the newly inserted key.
